@@ -698,6 +698,13 @@ impl<'a, 'b, 'ast> Visit<'ast> for BodyV<'a, 'b> {
     }
 
     fn visit_expr_closure(&mut self, c: &'ast ExprClosure) {
+        // R18: Verus rejects `_` as a closure parameter; give it a name
+        for (i, p) in c.inputs.iter().enumerate() {
+            if let Pat::Wild(wp) = p {
+                let r = br(wp.underscore_token.span());
+                self.fc.edit(r.0, r.1, format!("_w{i}"), "R18.closure_wild");
+            }
+        }
         self.weave_closure(c);
         // visit params' types and the body
         for p in c.inputs.iter() {
